@@ -110,8 +110,7 @@ namespace sqf::parser::preprocessor
                             {
                                 _next();
                                 is_in_block_comment = false;
-                                c = next();
-                                break;
+                                return next();
                             }
                         }
                     }
